@@ -1,10 +1,10 @@
 """C08 - signature counters strictly increase and equal what the store holds."""
-import json
+import json, base64
 import common, ceremony
 from ceremony import *
 
 PROP = "C08"
-COQ_TARGETS = ceremony.COQ_TARGETS
+COQ_TARGETS = ceremony.COQ_TARGETS + list(ceremony.WCOQ_TARGETS)
 HARNESS_BINS = ceremony.HARNESS_BINS
 replay = ceremony.replay
 MAXC = 2**32 - 1
@@ -85,6 +85,75 @@ def counter_histories(run, n):
     return scs
 
 
+def client_level(run):
+    """the WebAuthn entry point (Client::authenticate): one ceremony moves the selected credential's counter by exactly one
+    (failed ceremonies: by at most one), the value reported inside the signed authenticator data is previous+1 and equals the
+    stored value afterwards - with and without the prf extension requested, on credentials with and without hmac-secret, on
+    authenticators with and without the extension."""
+    rng = run.rng
+    scs = []
+    ids = [bytes([0x81]) * 16, bytes([0x82]) * 16, bytes([0x83]) * 16]
+    for kind in ("ref", "memory", "arc_mutex_ref"):
+        for hm in (None, {"without_uv": True, "on_mc": True}):
+            for start in (0, 1, 9000, 2**32 - 3):
+                content = [mk_passkey(rng, "example.com", cred_id=ids[0], counter=start, keyidx=0, hmac=None),
+                           mk_passkey(rng, "example.com", cred_id=ids[1], counter=start, keyidx=1, hmac=(b"\x11" * 32, b"\x12" * 32)),
+                           mk_passkey(rng, "example.com", cred_id=ids[2], counter=None, keyidx=2, hmac=None)]
+                prf = wext(prf=((b"\x01" * 8, None), None))
+                prf_by = wext(prf=(None, [(base64.urlsafe_b64encode(ids[1]).rstrip(b"=").decode(), b"\x02" * 4, b"\x03")]))
+                ops = [auth_op(rng, allow=[ids[0]]), auth_op(rng, allow=[ids[0]], ext=prf), auth_op(rng, allow=[ids[0]], ext=prf, uv="required"),
+                       auth_op(rng, allow=[ids[1]], ext=prf), auth_op(rng, allow=[ids[1]], ext=prf_by), auth_op(rng, allow=[ids[0]]),
+                       auth_op(rng, allow=[ids[2]], ext=prf), auth_op(rng, allow=[ids[1]])]
+                scs.append(client_scenario(store_kind=kind, content=content, config={"counter": True, "hmac": hm},
+                                           user={"script": [{"presence": True, "verification": True}] * len(ops)}, ops=ops))
+    binary = common.harness_build("ceremony")
+    outs = ceremony.run_scenarios(binary, scs)
+    fails, n_ok, n_err = [], 0, 0
+    for sc, out in zip(scs, outs):
+        if "ops" not in out:
+            fails.append((sc, out, "the client ceremony crashed the process")); continue
+        before = {p["cred_id"]: p["counter"] for p in sc["store"]["content"]}
+        for op, obs in zip(sc["ops"], out["ops"]):
+            after = {p["cred_id"]: p["counter"] for p in obs["store_after"]}
+            res, why = obs["result"], None
+            sel = op["req"]["allow"][0]
+            for cid in before:
+                if cid != sel and after.get(cid) != before[cid]:
+                    why = "the counter of credential %s, which is not the selected one, moved from %s to %s" % (cid, before[cid], after.get(cid))
+            b, a = before[sel], after.get(sel)
+            if "ok" in res:
+                n_ok += 1
+                reported = int.from_bytes(bytes.fromhex(res["ok"]["auth_data"])[33:37], "big")
+                if b is None:
+                    if reported != 0 or a is not None: why = why or "a credential without a counter reported %d / stores %s" % (reported, a)
+                else:
+                    want = min(b + 1, 2**32 - 1)
+                    if reported != want: why = why or "a successful authentication reported counter %d, the credential held %d before (expected %d)" % (reported, b, want)
+                    elif a != reported: why = why or "reported counter %d but the store holds %s afterwards" % (reported, a)
+            else:
+                n_err += 1
+                if b is not None and a not in (b, min(b + 1, 2**32 - 1)):
+                    why = why or "a failed authentication moved the counter from %d to %s" % (b, a)
+                if b is None and a is not None:
+                    why = why or "a failed authentication gave a counter (%s) to a credential that had none" % a
+            if why:
+                fails.append((sc, obs, why))
+            before = after
+    for sc, obs, why in fails[:3]:
+        run.violation({"kind": "client level: " + why, "scenario": sc, "observed": obs})
+    common.coq_build(list(ceremony.WCOQ_TARGETS))
+    flat = [x for x in ceremony.wcases_of(scs, outs) if x[4] is not None]
+    res = common.coq_eval(PROP + "-client", ceremony.WPREAMBLE, [t for *_, t in flat], ["wagree"], shard=60)
+    if not fails and res["wagree"]:
+        si, oi, op, obs, t = flat[res["wagree"][0]]
+        run.violation({"kind": "client model and implementation disagree; the client-level counter oracle is true on all %d observations" % len(flat),
+                       "broken": "correspondence ceremony/%s (Auth.ClientCheck.wagree)" % op["op"], "scenario": scs[si], "observed": obs}, found_input=False)
+    run.cov["client_level"] = {"scenarios": len(scs), "successful_authentications": n_ok, "failed_authentications": n_err, "oracle_failures": len(fails),
+                               "model_disagreements": len(res["wagree"]),
+                               "rule": "Client::authenticate x store kind x hmac-secret configured or not x start counter {0,1,9000,2^32-3} x 8 ceremonies "
+                                       "(prf requested or not, credential with / without hmac-secret, with / without counter)"}
+
+
 def check(run):
     n = 200 if run.tier == "quick" else 3000
     scenarios = counter_histories(run, n) + [gen_history(run.rng, run.tier, max_ops=6) for _ in range(n // 2)]
@@ -108,5 +177,6 @@ def check(run):
             continue
         for msg in counter_oracle(sc, out):
             run.violation({"kind": "debug build, independent oracle: " + msg, "scenario": sc, "observed": out}); n_dbg_fail += 1
+    client_level(run)
     run.cov["debug_profile_scenarios"] = len(outs_dbg)
     run.cov["debug_profile_failures"] = n_dbg_fail
